@@ -87,6 +87,25 @@ REG = {
                 quick=dict(cases=1200, budget_s=150, min_nontrivial=40, case_timeout=60),
                 thorough=dict(cases=20000, budget_s=900, min_nontrivial=150, case_timeout=90),
                 deciding_monitors=["scenario-comparisons", "monitor:scen-entry"], assumptions=BASE_ASSUME),
+    "C13": dict(module="vlib.props.native", level="exploration",
+                rule="(a) grid: every accelerated function with both implementations (extensions rebuilt from the tree's .pyx): onShift on every "
+                     "minute of the week (every 3rd in quick) x 9 interval sets x 7 day sets x {no zone, a zone}; get_daily_hours; Scoreboard and "
+                     "Project idx<->date over bounded windows x resolutions x offsets incl. out-of-range; collectIntervals on every pattern up to "
+                     "length 8 (quick) / 10 (thorough) x windows x minimum lengths; (b) M-shadow: every accelerated call made while scheduling real "
+                     "projects executed twice; (c) whole-project fingerprints (dates + ledgers) pure vs fresh build (vs in-tree .so: note only); "
+                     "(d) the grid and projects under an ASan+UBSan build. distinct = grid cells + distinct project fingerprints",
+                quick=dict(projects=160, budget_s=300, min_nontrivial=100), thorough=dict(projects=2400, budget_s=1500, min_nontrivial=400),
+                deciding_monitors=["grid-comparisons", "shadow-calls", "fingerprint-comparisons"],
+                assumptions=BASE_ASSUME + ["extensions are rebuilt from the working tree's .pyx with the compiler directives of setup.py; the "
+                                           "git-ignored in-tree .so files are compared as a note only"]),
+    "C17": dict(module="vlib.props.native", level="exploration",
+                rule="exhaustive inside the grid: resolutions 1..60 min (12 representative ones in quick) x 4 start offsets x windows up to 3 days: "
+                     "size law, strict monotonicity, index(time(i))=i, floor-inverse at +1s/+res/2/+res-1 for EVERY index, rejection/clamping of "
+                     "out-of-range indices and instants, for Scoreboard and Project conversions, both implementations; collectIntervals against a "
+                     "brute-force reference on EVERY pattern up to length 9 (quick) / 12 (thorough) x every query window x minimum lengths 0..3",
+                quick=dict(cases=1, budget_s=300, min_nontrivial=50), thorough=dict(cases=1, budget_s=1500, min_nontrivial=200),
+                deciding_monitors=["law-evaluations", "collect-evaluations"], ext=["fresh"],
+                assumptions=["grid bounds as stated in 'rule'; outside them nothing is claimed"]),
 }
 
 
